@@ -1,11 +1,13 @@
 (* Properties_C10.v — C10: limited-memory QR and Anderson acceleration match their least-squares definition.
    Only theorem statements closed by `exact`, each followed by Print Assumptions; then non-vacuity examples.
    Model: LMQR.v (storage-faithful: raw Q, ring-indexed raw R, indices q_idx / r_idx_start / r_idx_end).
-   Proved for ALL histories within capacity: ring-index refinement (nat), Q*triu(R) = A (reals), Anderson affine combination.
-   NOT proved (checked numerically by the oracle on the implementation only): orthonormality of Q, least-squares optimality
-   of solve_col, Anderson's G window = last min(k,m,n) iterates — hence the `_partial` suffix on the history theorem. *)
+   Proved over the reals / nat for ALL histories within capacity (new columns outside the span of the window):
+   ring-index refinement; Q orthonormal, R upper triangular, Q R = A; solve_col = least-squares minimiser (thresholded
+   pivots: zero component, residual orthogonal to the kept Q columns); re-orthogonalisation needs <= 1 extra pass;
+   Anderson: G window = last min(k,m) iterates, factorised window = last min(k,m) residual differences, gamma = LS solution,
+   x_aa = sum alpha_i g_i with sum alpha_i = 1.   Not covered by theorems: binary64 rounding (correspondence + oracle). *)
 From Coq Require Import Reals List Arith Lia Lra.
-From Alpaqa Require Import Num NumR Vec LMQR LMQRRing LMQRAlg.
+From Alpaqa Require Import Num NumR Vec LMQR LMQRRing LMQRAlg LMQRLsq LMQRAnd.
 Import ListNotations.
 Local Open Scope R_scope.
 
@@ -105,20 +107,20 @@ Theorem C10_scale_R_spec : forall n st A s,
 Proof. exact scale_R_spec. Qed.
 Print Assumptions C10_scale_R_spec.
 
-(* full statement of the property also has: Q orthonormal, solve_col = least-squares minimiser (thresholded pivots -> 0).
-   Proved part: the factorisation represents the window (QR = A with upper-triangular R) and the ring invariant holds,
-   for every history of add / remove / reset / scale within capacity with new columns outside the span of the window. *)
-Theorem C10_QR_eq_A_all_histories_partial : forall n ops st A,
+(* the factorisation represents the window (QR = A with upper-triangular R) and the ring invariant holds,
+   for every history of add / remove / reset / scale within capacity with new columns outside the span of the window
+   (orthonormality: C10_QR_orthonormal_all_histories below) *)
+Theorem C10_QR_eq_A_all_histories : forall n ops st A,
   wf n st -> QRrep st A -> hist_ok n st ops ->
   QRrep (fold_left qstep ops st) (fold_left astep ops A) /\ wf n (fold_left qstep ops st).
 Proof. exact QR_eq_A_all_histories. Qed.
-Print Assumptions C10_QR_eq_A_all_histories_partial.
+Print Assumptions C10_QR_eq_A_all_histories.
 
-Theorem C10_QR_eq_A_from_empty_partial : forall n m ops,
+Theorem C10_QR_eq_A_from_empty : forall n m ops,
   (0 < m)%nat -> hist_ok n (qr_new n m) ops ->
   QRrep (fold_left qstep ops (qr_new n m)) (fold_left astep ops []).
 Proof. exact QR_eq_A_from_new. Qed.
-Print Assumptions C10_QR_eq_A_from_empty_partial.
+Print Assumptions C10_QR_eq_A_from_empty.
 
 Theorem C10_reachable_states_satisfy_ring_invariant : forall n st, wf n st -> ring_inv (cap st) (ring_of st).
 Proof. exact wf_ring_inv. Qed.
@@ -130,8 +132,9 @@ Proof. exact aa_alphas_sum_1. Qed.
 Print Assumptions C10_anderson_coefficients_sum_to_one.
 
 (* x_aa = sum_i alpha_i g_i over the G columns read through the ring (oldest first) followed by g_k; k+1 coefficients that sum
-   to 1; the window has min(old size, m-1) + 1 differences.  (That gamma' is the least-squares solution is not proved.) *)
-Theorem C10_anderson_output_is_affine_combination_partial : forall n qr G rk rlast gk mdf γ t,
+   to 1; the window has min(old size, m-1) + 1 differences.  (One call, ring hypotheses only; the full statement is
+   C10_anderson_compute_is_documented_combination below.) *)
+Theorem C10_anderson_output_is_affine_combination : forall n qr G rk rlast gk mdf γ t,
   Forall (fun c => length c = n) G -> length G = cap qr -> length gk = n ->
   ring_inv (cap qr) (ring_of qr) -> (0 < cap qr)%nat ->
   match minimize_update_anderson qr G rk rlast gk mdf γ with
@@ -142,7 +145,141 @@ Theorem C10_anderson_output_is_affine_combination_partial : forall n qr G rk rla
       getv x t = dotl α (map (fun c => getv c t) (aa_cols qr2 G gk))
   end.
 Proof. exact anderson_is_affine_combination. Qed.
-Print Assumptions C10_anderson_output_is_affine_combination_partial.
+Print Assumptions C10_anderson_output_is_affine_combination.
+
+(* ---------------------------------------------------------------- (4) orthonormal Q, every history *)
+(* Orth n st : forall i j < q_idx, sum_{t<n} Q(t,i) Q(t,j) = (i = j ? 1 : 0) *)
+Theorem C10_add_keeps_Q_orthonormal : forall n st v,
+  wf n st -> length v = n -> (q_idx st < cap st)%nat -> Orth n st -> add_norm st v <> 0 -> Orth n (add_column st v).
+Proof. exact add_keeps_orth. Qed.
+Print Assumptions C10_add_keeps_Q_orthonormal.
+
+Theorem C10_remove_keeps_Q_orthonormal : forall n st, wf n st -> Orth n st -> Orth n (remove_column st).
+Proof. exact remove_keeps_orth. Qed.
+Print Assumptions C10_remove_keeps_Q_orthonormal.
+
+Theorem C10_QR_orthonormal_all_histories : forall n ops st A,
+  wf n st -> QRrep st A -> Orth n st -> hist_ok n st ops ->
+  QRrep (fold_left qstep ops st) (fold_left astep ops A) /\ wf n (fold_left qstep ops st) /\
+  Orth n (fold_left qstep ops st).
+Proof. exact QR_orth_all_histories. Qed.
+Print Assumptions C10_QR_orthonormal_all_histories.
+
+Theorem C10_QR_orthonormal_from_reset : forall n m ops,
+  (0 < m)%nat -> hist_ok n (qr_new n m) ops ->
+  let st := fold_left qstep ops (qr_new n m) in
+  QRrep st (fold_left astep ops []) /\ wf n st /\ Orth n st.
+Proof. exact QR_orth_from_new. Qed.
+Print Assumptions C10_QR_orthonormal_from_reset.
+
+(* re-orthogonalisation: once q is orthogonal to the live columns the while loop runs at most once more, for any fuel >= 2
+   (so the fuel of the model is never exhausted in exact arithmetic), and add_column bumps reorth_count by at most 1 *)
+Theorem C10_reorthogonalisation_at_most_one_extra_pass : forall n Qc q0 r0 nv cnt f,
+  Forall (fun c => length c = n) Qc -> length q0 = n ->
+  (forall j, (j < length Qc)%nat -> dotn n (getc Qc j) q0 = 0) ->
+  reorth_loop (S (S f)) Qc q0 r0 (vnorm2 q0) nv cnt = reorth_loop 2 Qc q0 r0 (vnorm2 q0) nv cnt /\
+  match reorth_loop (S (S f)) Qc q0 r0 (vnorm2 q0) nv cnt with
+  | (q, _, nq, cnt') => q = q0 /\ nq = vnorm2 q0 /\ (cnt' <= S cnt)%nat
+  end.
+Proof. exact reorth_at_most_one_extra_pass. Qed.
+Print Assumptions C10_reorthogonalisation_at_most_one_extra_pass.
+
+Theorem C10_add_column_reorth_count : forall n st v,
+  wf n st -> length v = n -> (q_idx st < cap st)%nat -> Orth n st ->
+  (reorth (add_column st v) <= S (reorth st))%nat.
+Proof. exact add_column_reorth_count. Qed.
+Print Assumptions C10_add_column_reorth_count.
+
+(* ---------------------------------------------------------------- (5) solve_col *)
+(* thr st tol i : |R(i,i)| < tol ;  row_eq : row i of R x = Q^T b (R zero below the diagonal) ;
+   resid A k b c t = sum_{j<k} c_j A(t,j) - b(t) *)
+Theorem C10_solve_col_back_substitution : forall n st b tol x,
+  wf n st -> length b = n -> (q_idx st <= length x)%nat ->
+  (forall i, (i < q_idx st)%nat -> thr st tol i = false -> Rl st i i <> 0) ->
+  let x' := solve_col st b tol x in
+  length x' = length x /\ (forall i, (q_idx st <= i)%nat -> getv x' i = getv x i) /\
+  forall i, (i < q_idx st)%nat ->
+    (thr st tol i = true -> getv x' i = 0) /\ (thr st tol i = false -> row_eq n st b x' i).
+Proof. exact solve_col_rows. Qed.
+Print Assumptions C10_solve_col_back_substitution.
+
+(* what is achieved when pivots are thresholded: x'_T = 0 and Q_i^T (A x' - b) = 0 for every kept pivot i,
+   i.e. x' annihilates the projection of the residual on span{Q_i : i kept} (the quantity minimised is that projection) *)
+Theorem C10_solve_col_thresholded : forall n st A b tol x,
+  wf n st -> QRrep st A -> Orth n st -> length b = n -> (q_idx st <= length x)%nat ->
+  (forall i, (i < q_idx st)%nat -> thr st tol i = false -> Rl st i i <> 0) ->
+  let x' := solve_col st b tol x in
+  (forall i, (q_idx st <= i)%nat -> getv x' i = getv x i) /\
+  forall i, (i < q_idx st)%nat ->
+    (thr st tol i = true -> getv x' i = 0) /\
+    (thr st tol i = false -> dotf n (getv (getc (Qs st) i)) (resid A (q_idx st) b (getv x')) = 0).
+Proof. exact solve_col_thresholded. Qed.
+Print Assumptions C10_solve_col_thresholded.
+
+Theorem C10_positive_threshold_pivot_nonzero : forall st tol i, 0 < tol -> thr st tol i = false -> Rl st i i <> 0.
+Proof. exact positive_threshold_pivot_nonzero. Qed.
+Print Assumptions C10_positive_threshold_pivot_nonzero.
+
+(* no pivot below the threshold: R x = Q^T b, normal equations A^T (A x - b) = 0, and ||A x - b|| <= ||A z - b|| for all z *)
+Theorem C10_solve_col_is_least_squares_minimiser : forall n st A b tol x,
+  wf n st -> QRrep st A -> Orth n st -> length b = n -> (q_idx st <= length x)%nat ->
+  (forall i, (i < q_idx st)%nat -> thr st tol i = false /\ Rl st i i <> 0) ->
+  let x' := solve_col st b tol x in
+  (forall i, (i < q_idx st)%nat -> row_eq n st b x' i) /\
+  (forall j, (j < q_idx st)%nat -> dotf n (Acol A j) (resid A (q_idx st) b (getv x')) = 0) /\
+  (forall cz : nat -> R,
+     dotf n (resid A (q_idx st) b (getv x')) (resid A (q_idx st) b (getv x'))
+     <= dotf n (resid A (q_idx st) b cz) (resid A (q_idx st) b cz)).
+Proof. exact solve_col_least_squares. Qed.
+Print Assumptions C10_solve_col_is_least_squares_minimiser.
+
+(* ---------------------------------------------------------------- (6) Anderson, every history *)
+(* abstract state (h, A, rl): iterates g since initialize/reset (newest last); FIFO of at most m residual differences; last residual.
+   FInv n a (h, A, rl): G ring holds h's tail (AInv), the factorisation represents A with orthonormal Q, r_last = rl. *)
+Theorem C10_anderson_all_histories : forall n ops a s, FInv n a s -> aa_hist_ok n a ops ->
+  exists a', aa_run a ops = Some a' /\ FInv n a' (fold_left (abs_step (cap (a_qr a))) ops s) /\ cap (a_qr a') = cap (a_qr a).
+Proof. exact aa_all_histories. Qed.
+Print Assumptions C10_anderson_all_histories.
+
+Theorem C10_anderson_initial_state : forall n mem mdf, (0 < Nat.min n mem)%nat -> FInv n (aa_new n mem mdf) ([], [], []).
+Proof. exact FInv_new. Qed.
+Print Assumptions C10_anderson_initial_state.
+
+(* G window refinement alone (no algebraic hypotheses): compute() combines exactly the last min(k, m) iterates and g_k *)
+Theorem C10_anderson_G_window : forall a h gk rk a' x,
+  AInv a h -> a_init a = true -> aa_compute a gk rk = Some (a', x) ->
+  AInv a' (h ++ [gk]) /\ a_init a' = true /\ cap (a_qr a') = cap (a_qr a) /\
+  q_idx (a_qr a') = Nat.min (length h) (cap (a_qr a)) /\
+  aa_cols (a_qr a') (a_G a) gk =
+    map (fun j => nth (length h - q_idx (a_qr a') + j) h []) (seq 0 (q_idx (a_qr a'))) ++ [gk].
+Proof. exact AInv_compute. Qed.
+Print Assumptions C10_anderson_G_window.
+
+(* one compute() at any reachable state: x_aa = sum alpha_i w_i over W = last min(k,m) iterates ++ [g_k], sum alpha = 1,
+   alpha from gamma, gamma = solve_col on the factorisation of A' = last min(k,m) residual differences with rhs r_k:
+   thresholded pivots -> 0 / residual orthogonality, and without thresholded pivots gamma minimises ||A' gamma - r_k|| *)
+Theorem C10_anderson_compute_is_documented_combination : forall n a h A rl g r a' x,
+  FInv n a (h, A, rl) -> op_ok n a (PCompute g r) -> aa_compute a g r = Some (a', x) ->
+  let m := cap (a_qr a) in
+  let qr2 := a_qr a' in
+  let k := q_idx qr2 in
+  let A' := evict m A ++ [vsub r rl] in
+  let W := map (fun j => nth (length h - k + j) h []) (seq 0 k) ++ [g] in
+  let γ := a_gamma a' in
+  let α := aa_alphas γ k in
+  let tol := aa_tol qr2 (a_mdf a) in
+  k = Nat.min (length h) m /\ length A' = k /\ QRrep qr2 A' /\ Orth n qr2 /\ wf n qr2 /\
+  lsum α = 1 /\ length α = S k /\ length W = S k /\
+  (forall t, getv x t = dotl α (map (fun c => getv c t) W)) /\
+  ((forall i, (i < k)%nat -> thr qr2 tol i = false -> Rl qr2 i i <> 0) ->
+   forall i, (i < k)%nat ->
+     (thr qr2 tol i = true -> getv γ i = 0) /\
+     (thr qr2 tol i = false -> dotf n (getv (getc (Qs qr2) i)) (resid A' k r (getv γ)) = 0)) /\
+  ((forall i, (i < k)%nat -> thr qr2 tol i = false /\ Rl qr2 i i <> 0) ->
+   (forall j, (j < k)%nat -> dotf n (Acol A' j) (resid A' k r (getv γ)) = 0) /\
+   forall cz : nat -> R, dotf n (resid A' k r (getv γ)) (resid A' k r (getv γ)) <= dotf n (resid A' k r cz) (resid A' k r cz)).
+Proof. exact anderson_compute_spec. Qed.
+Print Assumptions C10_anderson_compute_is_documented_combination.
 
 (* ---------------------------------------------------------------- non-vacuity *)
 (* a history within capacity that fills a capacity-3 ring, wraps around and removes right after the wrap *)
@@ -195,3 +332,31 @@ Qed.
 
 Example C10_nonvacuous_anderson : lsum (aa_alphas [2; 5; -1] 3) = 1 /\ aa_alphas [2; 5; -1] 3 = [2; 5 - 2; -1 - 5; 1 - -1].
 Proof. split; [apply aa_alphas_sum_1; lia | reflexivity]. Qed.
+
+(* the history hypotheses of the orthonormality / least-squares theorems hold on the history above *)
+Example C10_nonvacuous_orthonormal :
+  let st := fold_left qstep [QAdd [1; 0]; QRem; QAdd [0; 1]; QScale 2] (qr_new 2 1) in
+  QRrep st [[2 * 0; 2 * 1]] /\ Orth 2 st /\ q_idx st = 1%nat.
+Proof.
+  assert (Hok : hist_ok 2 (qr_new 2 1) [QAdd [1; 0]; QRem; QAdd [0; 1]; QScale 2]).
+  { pose proof C10_nonvacuous_history as H. cbn [hist_ok] in *. tauto. }
+  destruct (QR_orth_from_new 2 1 _ ltac:(lia) Hok) as (H1 & H2 & H3). cbv zeta.
+  split; [|split; [exact H3|]].
+  - cbn [fold_left astep app tl map vscale] in H1. numR. exact H1.
+  - destruct H1 as (HL & _). cbn [fold_left astep app tl map length] in HL. symmetry. exact HL.
+Qed.
+
+(* an Anderson history satisfying aa_hist_ok: initialize, then a compute whose residual difference is e1 *)
+Lemma vnorm2_diff_e1 : vnorm2 (vsub [1; 0] [0; 0]) = 1.
+Proof. unfold vnorm2, vsqnorm, vsum, redux, vsub. simpl. numR. replace ((1 - 0) * (1 - 0) + (0 - 0) * (0 - 0)) with 1 by lra. apply sqrt_1. Qed.
+Example C10_nonvacuous_anderson_history : forall mdf,
+  aa_hist_ok 2 (aa_new 2 1 mdf) [PInit [1; 1] [0; 0]; PCompute [2; 0] [1; 0]].
+Proof.
+  intros mdf. cbn [aa_hist_ok aa_opstep]. split; [split; reflexivity|].
+  set (a1 := aa_initialize (aa_new 2 1 mdf) [1; 1] [0; 0]).
+  assert (Hi : a_init a1 = true) by reflexivity.
+  split.
+  - cbn [op_ok]. split; auto. split; [reflexivity|]. split; [reflexivity|].
+    rewrite add_norm_first; [lra | reflexivity | exact vnorm2_diff_e1].
+  - destruct (aa_compute_shape a1 [2; 0] [1; 0] Hi) as (x & E). cbv zeta in E. rewrite E. exact I.
+Qed.
